@@ -383,6 +383,30 @@ func checkC08(c *core.Ctx) error {
 		outs = append(outs, mkRun(id, oevs, map[string]interface{}{"ev": "DetObs", "n": nRich, "outcomes": oo, "ambiguousTrace": false, "ambiguousModel": false}))
 		runsTotal += nRich
 	}
+	// derive calls spread over several files: the order in which files are processed must not depend on the parse schedule
+	multiTypes := []string{"*Rich", "*Inner", "Key", "[]string", "map[string]int", "[]*Inner", "*[]int"}
+	for mi, fl := range [][]string{nil, {"-autoname"}} {
+		// plain: every call has its own name; -autoname: all calls share one name per plugin and are renamed in file order
+		multiFiles := map[string]string{"go.mod": "module m\n\ngo 1.24\n", "p/types.go": richTypes}
+		for fi, typ := range multiTypes {
+			sfx := string(rune('A' + fi))
+			if mi == 1 {
+				sfx = ""
+			}
+			multiFiles[fmt.Sprintf("p/f%d.go", fi)] = fmt.Sprintf("package p\n\nfunc eq%d(a, b %s) bool { return deriveEqual%s(a, b) }\n\nfunc h%d(a %s) uint64 { return deriveHash%s(a) }\n", fi, typ, sfx, fi, typ, sfx)
+		}
+		mo, mevs, _, err := repeatRuns(c, bin, filepath.Join(c.Work, "det", "multi"), multiFiles, nRich, fl...)
+		if err != nil {
+			return err
+		}
+		if len(mo) == 1 && mo[0].Exit != 0 {
+			return fmt.Errorf("the multi-file determinism package %d does not generate (harness scenario broken)", mi)
+		}
+		id := fmt.Sprintf("c08-multi%d", mi)
+		byID[id] = &result{key: "seven files with derive calls " + strings.Join(fl, " "), outcomes: mo, n: nRich}
+		outs = append(outs, mkRun(id, mevs, map[string]interface{}{"ev": "DetObs", "n": nRich, "outcomes": mo, "ambiguousTrace": false, "ambiguousModel": false}))
+		runsTotal += nRich
+	}
 	// invocation context: addressing and grouping variants of package p in a module with siblings
 	ctxOut, nVariants, err := contextVariants(c, bin, richFiles)
 	if err != nil {
@@ -425,7 +449,7 @@ func checkC08(c *core.Ctx) error {
 	c.Set("distinct_nontrivial", len(keys))
 	c.Set("scenarios_ambiguous_in_model", countTrue(modelAmb))
 	c.Set("scenarios_ambiguous_in_trace", ambTrace)
-	c.Set("rule", "TLC explores Determinism.tla (self-composition of name registration over mutually assignable argument types, every pair of map-order resolutions); every scenario is run repeatedly on the real generator (60/400 times where the model or the recorded trace shows a lookup with several matches, else 3/10), plus a 9-plugin package, two packages under -pluginprefix configurations where one plugin prefix is a proper prefix of another, and 10+ ways of addressing/grouping packages; non-trivial = distinct scenarios")
+	c.Set("rule", "TLC explores Determinism.tla (self-composition of name registration over mutually assignable argument types, every pair of map-order resolutions); every scenario is run repeatedly on the real generator (60/400 times where the model or the recorded trace shows a lookup with several matches, else 3/10), plus a 9-plugin package, a package whose derive calls are spread over seven files (own names without flags; shared names renamed in file order with -autoname), two packages under -pluginprefix configurations where one plugin prefix is a proper prefix of another, and 10+ ways of addressing/grouping packages; non-trivial = distinct scenarios")
 	c.Set("exhaustive", false)
 	c.Assume("'on every run' is statistical on the real binary (map order is re-randomised per run); exhaustive only in the model")
 	return nil
